@@ -22,7 +22,7 @@ def describe(group, case):
 
 def spec(pid, pf):
     return {
-        "uses_gen": ["Mathutil", "CoinHours"],
+        "uses_gen": ["Mathutil", "CoinHours", "CoinLoops"],   # CoinLoops: C01_*_is_translated (Proofs/LedgerRefine.v)
         "cmd": "c01",
         "budget": (28, 300),
         "header": "From Sky Require Import Base.Uint Model.LedgerTypes Model.LedgerObs.\nOpen Scope Z_scope.",
